@@ -21,7 +21,7 @@ Which limb-level function each integer-level theorem specifies, and what is PROV
 | Go function | limb-level twin | integer-level spec | connection |
 |---|---|---|---|
 | `Ring.DivFloorByLastModulus` | `Scaling.divFloor` | `divFloor_crt` | **proved**: `divFloor_limbs` (every limb = ⌊x/q_ℓ⌋ mod q_i, from `MRed_spec`, `MForm_spec`, Fermat) |
-| `Ring.DivRoundByLastModulus` | `Scaling.divRound` | `divRound_crt`, `round_half_up` | **proved**: `divRound_limbs`; `divRound_rewrites_input` (p0 is rewritten) |
+| `Ring.DivRoundByLastModulus` | `Scaling.divRound` | `divRound_crt`, `round_half_up` | **proved**: `divRound_limbs` (before repair C02-1 of /repo the function also rewrote p0; now it does not, probe `div_input_unchanged`) |
 | `Ring.Div{Floor,Round}ByLastModulusMany` | `Scaling.divFloorMany/divRoundMany` | `divFloorMany_int`, `divRoundMany_int` | **proved**: `divFloorMany_limbs`, `divRoundMany_limbs` + `roundSeq_eq` |
 | the four `…NTT` variants | `Scaling.div*NTT` | same | GAP: = coefficient variants conjugated by the NTT; needs C01's NTT correctness theorem (`INTT∘NTT = id`, linearity) which is not available as a lemma; tie only |
 | `ModUpExact`, `BasisExtender.ModUpQtoP/PtoQ` | `BasisExt.modUpExact/modUp` | `hps_sum`, `modUp_exact`, `modUp_off_by_one_*`, `modUp_centered_exact` | GAP (named): the Montgomery bookkeeping of `genModUpConstants`/`reconstruct`/`multSum` (128-bit accumulate + lazy reduction ≡ Σ y_i·(Q/q_i) + v·(−Q) mod p) is not proved, and the IEEE-754 computation of `v` is a hypothesis; tie is limb-exact incl. the Float index |
@@ -103,10 +103,11 @@ theorem divFloor_limbs (qs : List Nat) (hC : Chain qs) (level : Nat) (hl : level
       (x / modulus qs level) % modulus qs i :=
   Scaling.divFloor_limbs qs hC level hl p0 X hrows
 
-/-- **Refinement, `DivRoundByLastModulus`** (second component = p1). -/
+/-- **Refinement, `DivRoundByLastModulus`** (rows of p1; p0 is an argument of the twin only, not a result:
+since repair C02-1 of /repo the function does not touch it — probe `div_input_unchanged`). -/
 theorem divRound_limbs (qs : List Nat) (hC : Chain qs) (level : Nat) (hl : level < qs.length)
     (p0 : Rows) (X : List Nat) (hrows : ∀ i, i ≤ level → row p0 i = X.map (· % modulus qs i)) :
-    (divRound qs level p0).2 = (List.range level).map fun i => X.map fun x =>
+    divRound qs level p0 = (List.range level).map fun i => X.map fun x =>
       ((x + half (modulus qs level)) / modulus qs level) % modulus qs i :=
   Scaling.divRound_limbs qs hC level hl p0 X hrows
 
@@ -123,8 +124,8 @@ round-half-up quotient, equal to round-half-up by the product (`roundSeq_eq`). -
 theorem divRoundMany_limbs (qs : List Nat) (hC : Chain qs) (level nb : Nat) (hl : level < qs.length)
     (hnb : nb ≤ level) (p0 : Rows) (X : List Nat)
     (hrows : ∀ i, i ≤ level → row p0 i = X.map (· % modulus qs i)) :
-    ∃ r, divRoundMany qs level nb p0 = some r ∧ ∀ i, i ≤ level - nb →
-      row r.2 i = X.map fun x => roundSeq qs level nb x % modulus qs i :=
+    ∃ p1, divRoundMany qs level nb p0 = some p1 ∧ ∀ i, i ≤ level - nb →
+      row p1 i = X.map fun x => roundSeq qs level nb x % modulus qs i :=
   Scaling.divRoundMany_limbs qs hC level nb hl hnb p0 X hrows
 
 theorem roundSeq_eq (qs : List Nat) (nb level x : Nat) (h : ∀ s, s < nb → modulus qs (level - s) % 2 = 1) :
@@ -139,11 +140,6 @@ example : Chain [97, 193, 257] :=
    by decide⟩
 example : divFloor [97, 193, 257] 2 [[1234567 % 97], [1234567 % 193], [1234567 % 257]]
     = [[1234567 / 257 % 97], [1234567 / 257 % 193]] := by decide +kernel
-
-/-- **`DivRoundByLastModulus` rewrites its input** (the doc comment does not say so): after the call `p0` is not
-what it was — its last row is shifted by `(q_ℓ−1)/2` and the others hold the lazy values `s + 2q_i − x_i`. -/
-theorem divRound_rewrites_input : (divRound [97, 193] 1 [[5], [7]]).1 ≠ [[5], [7]] :=
-  Scaling.divRound_rewrites_input
 
 /-! ## 2. Basis extension (HPS), ModDown, small-norm extension
 
@@ -204,7 +200,7 @@ theorem modUp_centered_exact (qs ys : List Nat) (x : Nat) (t : ℚ)
 
 /-- `modDown_err`: `(x_i − e_i)·P⁻¹ mod q_i` where `e_i` extends the centred `[x]_P` with an error of `δ`
 multiples of `P`: the result is `round(x/P) − δ`; exact extension (`δ = 0`) gives the ROUNDED quotient
-`⌊(x + ⌊P/2⌋)/P⌋` (all three `ModDown*`, `ModDownQPtoP` included although its comment says "floored");
+`⌊(x + ⌊P/2⌋)/P⌋` (all three `ModDown*`; the comment of `ModDownQPtoP` said "floored" before repair C02-3);
 extension of the non-centred `[x]_P` would give the floored one. -/
 theorem modDown_err (qi P c x ei : Nat) (δ : Int) (hqi : 0 < qi) (hc : (P * c) % qi = 1)
     (he : (ei : Int) % qi = (centeredRep P x + δ * P) % qi) :
@@ -269,8 +265,10 @@ theorem rns_digits_recombine (Qs : List Nat) (inv : Nat → Nat) (x : Int) (ds :
   rnsRecombine_modEq Qs inv x ds hc hpos hinv hd
 
 open Lattigo.Decomp in
-/-- **Counterexample (limb-level twin of `DecomposeAndSplit`, as `rlwe` calls it without special modulus).**
-`gadgetProductSinglePAndBitDecompLazy` passes `nbPi = levelP + 1`; with `P = ∅` (`levelP = −1`) that is
+/-- **Counterexample (limb-level twin of `DecomposeAndSplit`, as `rlwe` called it without special modulus —
+repaired in /repo by `fix:` 3f60e57, which makes the caller pass `nbPi = 1`; the end-to-end probe
+`keyswitch_noP_nopw2` watches the repaired behaviour, `DecomposeAndSplit` itself is unchanged).**
+`gadgetProductSinglePAndBitDecompLazy` passed `nbPi = levelP + 1`; with `P = ∅` (`levelP = −1`) that is
 `nbPi = 0`, so `lvlQStart = d·0 = 0`: digit 1 of `x = 393` (`≡ 5 mod 97, ≡ 7 mod 193`) is again `[x]_{97} = 5`
 instead of `[x]_{193} = 7`, and the digits recombine to `5`, not to `393`.  With `nbPi = 1` all is well. -/
 theorem decompose_noP_counterexample :
@@ -297,7 +295,6 @@ end Lattigo.Props.C02
 #print axioms Lattigo.Props.C02.divFloorMany_limbs
 #print axioms Lattigo.Props.C02.divRoundMany_limbs
 #print axioms Lattigo.Props.C02.roundSeq_eq
-#print axioms Lattigo.Props.C02.divRound_rewrites_input
 #print axioms Lattigo.Props.C02.hps_sum
 #print axioms Lattigo.Props.C02.hps_v_is_floor
 #print axioms Lattigo.Props.C02.modUp_exact
